@@ -70,7 +70,7 @@ func clItemImmutable(c *Ctx) {
 
 	checkFresh := func(w fieldWrite, what string) {
 		fi := p.Info(w.fn)
-		if w.fn == allocItem {
+		if p.sameRoot(w.fn, allocItem) {
 			c.Check(true, w.fn, w.in, cnt.in(w.fn, what+" in the allocator"), "")
 			return
 		}
@@ -90,7 +90,7 @@ func clItemImmutable(c *Ctx) {
 			case "store":
 				checkFresh(w, "store to Item."+fv.Name())
 			case "CAS":
-				ok := fv == fDead && w.fn == delNode && isConstInt(0)(callOf(w.in).Args[1])
+				ok := fv == fDead && p.sameRoot(w.fn, delNode) && isConstInt(0)(callOf(w.in).Args[1])
 				c.Check(ok, w.fn, w.in, cnt.in(w.fn, "CAS on Item."+fv.Name()), "the only permitted in-place update of a published item is DeleteNode's CompareAndSwap(&deadSn, 0, currSn)")
 			default:
 				c.Check(false, w.fn, w.in, cnt.in(w.fn, "atomic "+w.kind+" on Item."+fv.Name()), "published item header is overwritten unconditionally")
